@@ -169,8 +169,9 @@ structure DSt where
   cfg : Cfg
   mem : Option Mem
   disks : Array Disk
+  pend : Option (Nat × List Log × Pre) := none   -- a commit in flight: family, logs, what it read before vs.mutex.Lock()
 
-def DSt.init : DSt := ⟨⟨2, []⟩, none, #[Disk.empty]⟩
+def DSt.init : DSt := ⟨⟨2, []⟩, none, #[Disk.empty], none⟩
 
 def DSt.disk (s : DSt) : Disk := s.disks.back?.getD Disk.empty
 
@@ -212,7 +213,7 @@ def step (s : DSt) (ws : List String) : DSt × String :=
   match ws with
   | ["reset", lv, ru] =>
     match lv.toNat?, parseInts ru with
-    | some l, some r => (⟨⟨l, r⟩, none, #[Disk.empty]⟩, "ok")
+    | some l, some r => (⟨⟨l, r⟩, none, #[Disk.empty], none⟩, "ok")
     | _, _ => (s, "bad-op")
   | ["open"] =>
     match s.mem with
@@ -265,6 +266,34 @@ def step (s : DSt) (ws : List String) : DSt × String :=
       | some (m', ops) => ({ s.push ops with mem := some m' }, s!"ok fs={traceTok ops} st={stateTok m'}")
       | none => (s, "bad-op")
     | _, _, _ => (s, "bad-op")
+  | "cbegin" :: name :: toks =>
+    -- family.commitEditLog → CommitFamilyEditLog up to vs.mutex.Lock(): the committer is parked there
+    match s.mem, s.pend, name.toNat?, toks.mapM parseLog with
+    | some m, none, some n, some logs =>
+      match m.fam? n with
+      | some f =>
+        if logs.all Log.isBookkeeping && !logs.isEmpty then
+          ({ s with pend := some (n, logs, commitRead commitBeforeLockSteps m f.opt.id) }, "ok")
+        else (s, "bad-op")
+      | none => (s, "bad-op")
+    | _, _, _, _ => (s, "bad-op")
+  | ["cyield", name] =>
+    -- a further schedule point of the commit in flight at which vs.mutex is not held: nothing is read there
+    match s.pend, name.toNat? with
+    | some (n, _, _), some n' => if n = n' then (s, "ok fs=[]") else (s, "bad-op")
+    | _, _ => (s, "bad-op")
+  | ["cend", name] =>
+    -- the critical section of the commit in flight
+    match s.mem, s.pend, name.toNat? with
+    | some m, some (n, logs, pre), some n' =>
+      if n ≠ n' then (s, "bad-op") else
+      match m.fam? n with
+      | some f =>
+        match commitLocked m f.opt.id logs pre with
+        | some (m', ops) => ({ s.push ops with mem := some m', pend := none }, s!"ok fs={traceTok ops} st={stateTok m'}")
+        | none => (s, "bad-op")
+      | none => (s, "bad-op")
+    | _, _, _ => (s, "bad-op")
   | ["close"] =>
     match s.mem with
     | some m =>
@@ -274,7 +303,7 @@ def step (s : DSt) (ws : List String) : DSt × String :=
   | ["die", k] =>
     match k.toNat? with
     | some k =>
-      if k < s.disks.size then ({ s with mem := none, disks := s.disks.extract 0 (k + 1) }, "ok")
+      if k < s.disks.size then ({ s with mem := none, pend := none, disks := s.disks.extract 0 (k + 1) }, "ok")
       else (s, "bad-op")
     | none => (s, "bad-op")
   | ["crash", k] =>
